@@ -112,7 +112,21 @@ func (o *Obligation) sliceFrom(defsOnly bool, from int) map[int]bool {
 				}
 			}
 			if !isDef && i < from {
-				continue // loop-local slice: facts assumed before the loop was cut are not needed
+				// loop-local slice: of the facts assumed before the loop was cut only the quantifier-free ones
+				// about symbols already in the cone are kept (well-formedness of values loaded before the loop)
+				if strings.Contains(a, "(forall ") || strings.Contains(a, "(exists ") {
+					continue
+				}
+				all := true
+				for _, sy := range vc.assertSyms[i] {
+					if !rel[sy] {
+						all = false
+						break
+					}
+				}
+				if !all {
+					continue
+				}
 			}
 			keep[i] = true
 			changed = true
@@ -177,6 +191,9 @@ func (o *Obligation) queryWith(withModel bool, keep map[int]bool) string {
 	}
 	for k, a := range vc.asserts[:o.pos] {
 		if keep != nil && !keep[k] {
+			continue
+		}
+		if k >= o.skipFrom && k < o.skipTo {
 			continue
 		}
 		if o.Cover && vc.obAsserts[k] {
@@ -348,7 +365,7 @@ func discharge(obs []*Obligation, opt solveOpts) {
 				os.WriteFile(sfile, []byte(o.queryWith(false, keep)), 0o644)
 				r, _, ms := runSolver(solvers[0], sfile, to)
 				if d := os.Getenv("GVC_DUMPSLICE"); d != "" && r != "unsat" {
-					os.WriteFile(filepath.Join(d, "slice_"+sanitize(o.Name)+".smt2"), []byte(o.queryWith(true, keep)), 0o644)
+					os.WriteFile(filepath.Join(d, fmt.Sprintf("slice_%s_from%d_%v.smt2", sanitize(o.Name), sliceStart, defsOnly)), []byte(o.queryWith(false, keep)), 0o644)
 				}
 				os.Remove(sfile)
 				o.Ms += ms
